@@ -72,3 +72,92 @@ func leaseHorizon(in []byte) (any, error) {
 	}
 	return map[string]any{"rows": rows}, nil
 }
+
+// schedule-horizon: publish-supplied instants outside the int64 nanosecond range (next_run_at after 2262-04-11, received_at before
+// 1677-09-21; the Admin publish API accepts any RFC 3339 instant).  C05: a message scheduled for the future is not offered before its
+// time; C12/C13: the oldest message is the one with the earliest received_at on either backend.
+func init() { register("schedule-horizon", scheduleHorizon) }
+
+type shRow struct {
+	Backend   string `json:"backend"`
+	Case      string `json:"case"`
+	Offered   int    `json:"offered_now"`   // items a dequeue at the current clock returns for the far-future message's route
+	State     string `json:"state"`         // of the far-future message afterwards
+	NextAfter bool   `json:"next_after_now"` // its listed next_run_at is after the clock
+	Evicted   string `json:"evicted"`        // drop_oldest case: which message made room
+	Err       string `json:"err,omitempty"`
+}
+
+func scheduleHorizon(in []byte) (any, error) {
+	var req struct {
+		Dir   string  `json:"dir"`
+		NowNs int64   `json:"now_ns"`
+		Years []int   `json:"years"`      // next_run_at = 1 January of that year
+		Old   []int   `json:"old_years"` // received_at = 1 January of that year (drop_oldest victim)
+	}
+	if err := json.Unmarshal(in, &req); err != nil {
+		return nil, err
+	}
+	var rows []shRow
+	for _, backend := range []string{"memory", "sqlite"} {
+		for k, y := range req.Years {
+			clk := &clock{}
+			clk.set(req.NowNs)
+			st, closeFn, _, err := openStore(backend, qCfg{}, clk, filepath.Join(req.Dir, "sh-"+backend+"-"+itoa(k)+".db"))
+			row := shRow{Backend: backend, Case: "next_run_at-" + itoa(y/100) + itoa(y%100)}
+			if err != nil {
+				row.Err = err.Error()
+				rows = append(rows, row)
+				continue
+			}
+			if e := st.Enqueue(queue.Envelope{ID: "far", Route: "/r", Target: "t", Payload: []byte("x"), NextRunAt: time.Date(y, 1, 1, 0, 0, 0, 0, time.UTC)}); e != nil {
+				row.Err = e.Error()
+			}
+			r, e := st.Dequeue(queue.DequeueRequest{Route: "/r", Target: "t", Batch: 5, LeaseTTL: time.Minute})
+			if e != nil {
+				row.Err = e.Error()
+			}
+			row.Offered = len(r.Items)
+			if l, e := st.ListMessages(queue.MessageListRequest{Limit: 5}); e == nil {
+				for _, m := range l.Items {
+					if m.ID == "far" {
+						row.State = string(m.State)
+						row.NextAfter = m.NextRunAt.After(clk.now())
+					}
+				}
+			}
+			closeFn()
+			rows = append(rows, row)
+		}
+		for k, y := range req.Old {
+			clk := &clock{}
+			clk.set(req.NowNs)
+			st, closeFn, _, err := openStore(backend, qCfg{MaxDepth: 2, DropOldest: true}, clk, filepath.Join(req.Dir, "sho-"+backend+"-"+itoa(k)+".db"))
+			row := shRow{Backend: backend, Case: "received_at-" + itoa(y/100) + itoa(y%100)}
+			if err != nil {
+				row.Err = err.Error()
+				rows = append(rows, row)
+				continue
+			}
+			_ = st.Enqueue(queue.Envelope{ID: "recent", Route: "/r", Target: "t", Payload: []byte("x"), ReceivedAt: time.Unix(0, req.NowNs).Add(-time.Hour).UTC()})
+			_ = st.Enqueue(queue.Envelope{ID: "ancient", Route: "/r", Target: "t", Payload: []byte("x"), ReceivedAt: time.Date(y, 1, 1, 0, 0, 0, 0, time.UTC)})
+			if e := st.Enqueue(queue.Envelope{ID: "new", Route: "/r", Target: "t", Payload: []byte("x")}); e != nil {
+				row.Err = e.Error()
+			}
+			have := map[string]bool{}
+			if l, e := st.ListMessages(queue.MessageListRequest{Limit: 5}); e == nil {
+				for _, m := range l.Items {
+					have[m.ID] = true
+				}
+			}
+			for _, id := range []string{"recent", "ancient", "new"} {
+				if !have[id] {
+					row.Evicted += id
+				}
+			}
+			closeFn()
+			rows = append(rows, row)
+		}
+	}
+	return map[string]any{"rows": rows}, nil
+}
